@@ -32,4 +32,8 @@ theorem minWire_sound : Generated.params.validMinWire = true := Instances.valid_
 
 /-- non-vacuity: a message with an unknown field, a duplicate and a nested list -/
 example : wfFields [(1, .i32 7), (9, .list 11 [.str [65]]), (1, .i32 8)] = true := by decide
+/-- the hand-written model of the decoder functions (`Decode`, `decodeType`, `decodeStringNoCopy`, `decodeFixedSizeTypes`, `skipUnknown`, `mallocIfPointer`, `Malloc`) was written from, and validated against, code with exactly this
+    control structure (guards, switches, loops, returns, call sequence): regenerated fingerprint =
+    committed fingerprint of the unchanged tree -/
+theorem model_written_from_this_code : Generated.facts.decoderSkeleton = Skeleton.decoder := Instances.skeleton_decoder
 end Frugal.C03
